@@ -35,6 +35,13 @@ ON = ["cl", "cl2", "lam", "al", "box", "mk", "deco", "hf"]
 LITS = ["1", "2", "3", "'s'", "'t'", "(1, 2)", "[1, 2]", "[3]", "{'a': 1}", "{'a': 1, 'b': 2}", "{'b': 2, 'a': 1}",
         "{'a': 2}", "None", "2.5", "{'n': {'a': 1}}", "{'n': {'a': 2}}", "{1, 2}"]
 INTS = [1, 2, 3, 5, 7, 11]
+# two helper modules written next to every generated module (see c16.py): same function/class names, different behaviour
+EXT_SOURCES = {
+    "c16ext_a": "def ext(a=1):\n    return a + 100\nclass Ext:\n    def m(self):\n        return 100\n",
+    "c16ext_b": "def ext(a=1):\n    return a + 200\nclass Ext:\n    def m(self):\n        return 200\n",
+}
+EXT_IMPORTS = ["from c16ext_a import ext", "from c16ext_b import ext", "from c16ext_a import Ext", "from c16ext_b import Ext",
+               "import os", "import json as ext"]
 
 
 def names_of(items):
@@ -62,6 +69,9 @@ def gen_item(rng, items, name=None):
     factories = [n for n, it in cur.items() if it["k"] == "factory"]
     decos = [n for n, it in cur.items() if it["k"] == "deco"]
     r = rng.random()
+    if r < 0.04 and name is None:
+        st = rng.choice(EXT_IMPORTS)
+        return dict(k="import", stmt=st, name=st.split()[-1])
     if r < 0.14:
         return dict(k="data", name=name or rng.choice(DN), val=rng.choice(LITS))
     if r < 0.40:
@@ -84,7 +94,7 @@ def gen_item(rng, items, name=None):
         return dict(k="closure", name=name or rng.choice(["cl", "cl2"]), factory=rng.choice(factories),
                     args=[rng.choice(INTS), rng.choice(INTS)])
     if r < 0.66 and funcs:
-        return dict(k="hof", name=name or "hf", target=rng.choice(funcs), c=rng.choice(INTS))
+        return dict(k="hof", name=name or "hf", target=rng.choice(funcs + (datas if rng.random() < 0.25 else [])), c=rng.choice(INTS))
     if r < 0.70:
         return dict(k="lambda", name=name or "lam", c=rng.choice(INTS))
     if r < 0.86:
@@ -164,7 +174,8 @@ def fixup(items):
             if not (it["factory"] in cur and cur[it["factory"]]["k"] == "factory"):
                 continue
         elif k == "hof":
-            if not isfunc(it["target"]):
+            isint = it["target"] in cur and cur[it["target"]]["k"] == "data" and cur[it["target"]]["val"].lstrip("-").isdigit()
+            if not (isfunc(it["target"]) or isint):
                 continue
         elif k == "class":
             it["bases"] = [b for b in it["bases"] if b in cur and cur[b]["k"] == "class" and b != it["name"]]
@@ -250,7 +261,7 @@ def render_item(it):
     if k == "closure":
         return ["%s = %s(%s)" % (n, it["factory"], ", ".join(str(a) for a in it["args"]))]
     if k == "hof":
-        return ["%s = (lambda fn: (lambda x=1: fn(x) + %d))(%s)" % (n, it["c"], it["target"])]
+        return ["%s = (lambda fn: (lambda x=1: (fn(x) if callable(fn) else fn) + %d))(%s)" % (n, it["c"], it["target"])]
     if k == "lambda":
         return ["%s = lambda x=1: x + %d" % (n, it["c"])]
     if k == "class":
@@ -395,8 +406,17 @@ def mutate(rng, items):
                     it["inner"] = rng.choice(["inner", "inner2"])
             elif k == "closure":
                 it["args"] = [rng.choice(INTS), rng.choice(INTS)]
-            elif k in ("hof", "lambda"):
+            elif k == "hof":
+                if rng.random() < 0.6:
+                    it["c"] = rng.choice(INTS)
+                else:
+                    pool = _defined(items, idx, ("func", "lambda", "data"))
+                    if pool:
+                        it["target"] = rng.choice(pool)
+            elif k == "lambda":
                 it["c"] = rng.choice(INTS)
+            elif k == "import":
+                it["stmt"] = rng.choice(EXT_IMPORTS)
             elif k == "class":
                 w = rng.random()
                 if w < 0.30 and it["methods"]:
